@@ -51,6 +51,53 @@ def gen_cases(ctx):
     for w in kwl:
         for v in (w, w.lower(), w.capitalize(), w + "x", w[:-1], "_" + w, w + "1", w.lower() + " " + w):
             cases.append(".".join(str(ord(c)) for c in v))
+    # words that only fold to a keyword under Unicode case mapping (sharp s, long s, dotless i, ligatures, Kelvin sign ...)
+    folds = [("SS", "\u00df"), ("S", "\u017f"), ("I", "\u0131"), ("FI", "\ufb01"), ("ST", "\ufb06"), ("FF", "\ufb00"),
+             ("FL", "\ufb02"), ("K", "\u212a"), ("I", "\u0130"), ("N", "\u0149"), ("E", "\u00e9"), ("A", "\u00e5")]
+    for w in kwl:
+        for (a, b) in folds:
+            i = w.find(a)
+            while i >= 0:
+                for v in (w[:i] + b + w[i + len(a):], (w[:i] + b + w[i + len(a):]).lower().replace(b.lower(), b), "x = " + w[:i].lower() + b + w[i + len(a):].lower() + " y"):
+                    cases.append(".".join(str(ord(c)) for c in v))
+                i = w.find(a, i + 1)
+    # the statement of C05_lex_unlex evaluated on the implementation: random lists of printable lexemes, printed with
+    # one blank between lexemes (a line feed after a comment) must lex back to exactly these lexemes, without errors
+    OPS = [("OBracket", "("), ("CBracket", ")"), ("OSqrBracket", "["), ("CSqrBracket", "]"), ("OCurBracket", "{"),
+           ("CCurBracket", "}"), ("Asterisk", "*"), ("Divide", "/"), ("Modulus", "%"), ("AddressOf", "@"), ("Dot", "."),
+           ("Equals", "="), ("Comma", ","), ("LessThan", "<"), ("LeftShift", "<<"), ("LessThanOrEqual", "<="),
+           ("NotEquals", "<>"), ("GreaterThan", ">"), ("RightShift", ">>"), ("GreaterThanOrEqual", ">="),
+           ("StringConcat2", "&"), ("StringConcat", "&&"), ("Plus", "+"), ("Increment", "++"), ("IncrementAssign", "+="),
+           ("Minus", "-"), ("Decrement", "--"), ("DecrementAssign", "-="), ("Colon", ":"), ("DeepAssign", ":="), ("Pound", "#")]
+    idx, _ = load_keywords()
+    for _ in range(3000 if ctx.quick else 60000):
+        lx, text = [], ""
+        for _ in range(rng.randint(1, 12)):
+            k = rng.random()
+            if k < 0.25:
+                w = rng.choice(kwl)
+                w = "".join(c.upper() if rng.random() < 0.5 else c.lower() for c in w)
+                lx.append((kws[w.upper()], w)); text += w + " "
+            elif k < 0.45:
+                w = rng.choice("abXY_") + "".join(rng.choice("abXY_09") for _ in range(rng.randint(0, 6)))
+                if w.upper() in kws:
+                    continue
+                lx.append((idx["Identifier"], w)); text += w + " "
+            elif k < 0.55:
+                w = rng.choice("0123456789") + "".join(rng.choice("0123456789.eEx") for _ in range(rng.randint(0, 4)))
+                lx.append((idx["NumericLiteral"], w)); text += w + " "
+            elif k < 0.7:
+                v = "".join(rng.choice(["a", " ", "\n", "\r\n", "'", ";", "\u00e9", "x", '"', "#"]) for _ in range(rng.randint(0, 6)))
+                lx.append((idx["StringLiteral"], v)); text += "'" + v.replace("'", "''") + "' "
+            elif k < 0.8:
+                v = "".join(rng.choice("ab '\";\u00e9#") for _ in range(rng.randint(0, 6)))
+                lx.append((idx["Comment"], v)); text += ";" + v + "\n"
+            else:
+                name, sp = rng.choice(OPS)
+                lx.append((idx[name], sp)); text += sp + " "
+        case = ".".join(str(ord(c)) for c in text)
+        _UNLEX[case] = lx
+        cases.append(case)
     nrand = 20000 if ctx.quick else 300000
     pieces_ws = [" ", "\t", "\n", "\r\n", "\r", "  ", "\n\n"]
     ops = list("()[]{}*/%@.=,<>+-:&") + ["<<", "<=", "<>", ">>", ">=", "&&", "++", "+=", "--", "-=", ":="]
@@ -116,6 +163,7 @@ def true_pos(text, off):
 
 WORDCH = set(range(48, 58)) | set(range(65, 91)) | set(range(97, 123)) | {95}
 _kw = {}
+_UNLEX = {}     # case -> the lexemes it was printed from
 
 
 def oracle(case, out):
@@ -180,6 +228,12 @@ def oracle(case, out):
             want = kws.get(w, IDENT)
             if ty != want:
                 return "word %r classified as type %d, expected %d" % ("".join(map(chr, val)), ty, want)
+        if ty in _kw.setdefault("kwtypes", set(kws.values()) - {IDENT}):
+            # "no identifier is ever classified as a keyword": a keyword type only for a spelling of that keyword
+            # (ASCII case folding only: a word that merely case-folds to a keyword under Unicode rules, like cla\u00df, is a name)
+            wa = "".join(chr(c).upper() if c < 128 else chr(c) for c in val)
+            if kws.get(wa) != ty:
+                return "lexeme %r classified as keyword type %d although it is not a spelling of that keyword" % ("".join(map(chr, val)), ty)
         for i in range(raw, min(end, len(text))):
             covered[i] = True
         prev_end = end
@@ -194,6 +248,11 @@ def oracle(case, out):
             return "error #%d is at %r for char %d; the uncovered character %d is at %r" % (ei - 1, (e[0], e[1]), e[4], c, true_pos(text, i))
     if ei != len(errs):
         return "%d lexical errors reported for covered or blank characters" % (len(errs) - ei)
+    exp = _UNLEX.get(case)
+    if exp is not None:
+        got = [(int(t[0]), "".join(chr(int(x)) for x in t[6].split(".")) if t[6] else "") for t in toks]
+        if got != exp or errs:
+            return "printed lexemes %r lex back as %r with %d errors (C05_lex_unlex)" % (exp[:8], got[:8], len(errs))
     return None
 
 
